@@ -26,6 +26,9 @@ pub struct Opts {
     pub file_index: u8,
     pub low_pc: LowPc,
     pub range_form: RangeForm,
+    /// give every subprogram children (a formal parameter, and a lexical block holding a
+    /// variable): the DIE tree is then three levels deep instead of flat
+    pub nested: bool,
 }
 
 /// how function ends are written
@@ -132,6 +135,15 @@ pub fn synthesize(m: &WModule, o: Opts) -> Result<Vec<(String, Vec<u8>)>, String
         } else {
             e.set(gimli::DW_AT_high_pc, AttributeValue::Udata(len));
         }
+        if o.nested {
+            let pn = dwarf.strings.add(format!("arg{}", fi).into_bytes());
+            let p = dwarf.unit.add(id, gimli::DW_TAG_formal_parameter);
+            dwarf.unit.get_mut(p).set(gimli::DW_AT_name, AttributeValue::StringRef(pn));
+            let lb = dwarf.unit.add(id, gimli::DW_TAG_lexical_block);
+            let vn = dwarf.strings.add(format!("tmp{}", fi).into_bytes());
+            let v = dwarf.unit.add(lb, gimli::DW_TAG_variable);
+            dwarf.unit.get_mut(v).set(gimli::DW_AT_name, AttributeValue::StringRef(vn));
+        }
     }
     let mut sections = Sections::new(EndianVec::new(LittleEndian));
     dwarf.write(&mut sections).map_err(|e| format!("gimli write: {}", e))?;
@@ -187,7 +199,7 @@ pub fn data_only_sections() -> Vec<(String, Vec<u8>)> {
 /// a minimal well-formed DWARF for C14's "input has DWARF" dimension
 pub fn minimal_sections(wasm: &[u8]) -> Vec<(String, Vec<u8>)> {
     match wmodel::decode(wasm) {
-        Ok(m) => synthesize(&m, Opts { version: 4, one_sequence: false, file_index: 0, low_pc: LowPc::Body, range_form: RangeForm::Offset }).unwrap_or_default(),
+        Ok(m) => synthesize(&m, Opts { version: 4, one_sequence: false, file_index: 0, low_pc: LowPc::Body, range_form: RangeForm::Offset, nested: false }).unwrap_or_default(),
         Err(_) => vec![],
     }
 }
